@@ -41,7 +41,7 @@ func runC09(c *Ctx) {
 	}
 
 	// ... and not advertised either
-	if f := c.A.Func("(*Conn).handleGreet"); f != nil {
+	if f := capsFunc(c); f != nil {
 		caps, _ := extractCaps(c, f)
 		nAuth := 0
 		for _, ce := range caps {
